@@ -11,147 +11,8 @@ META = {
     "assumptions": ["the `?` desugaring (Try::branch + FromResidual::from_residual) returns the error", "From<io::Error> for Error wraps into Error::Io"],
 }
 
-FALLIBLE_ERR = ("std::io::Error", "error::Error", "Error<", "::Error", "io::IntoInnerError", "snap::Error", "lz4_flex", " E>", ", E>", "F>")
-BENIGN_ERR = ("TryFromSliceError", "TryFromIntError", "LayoutError", "std::convert::Infallible>", "std::fmt::Error", "std::alloc::")
-FORWARD = {"map", "map_err", "and_then", "or_else", "collect", "transpose", "branch", "from_residual", "into", "from", "map_or_else"}
-DISCARD = {"ok", "is_ok", "is_err", "unwrap_or", "unwrap_or_else", "unwrap_or_default", "err", "drop", "is_ok_and", "is_err_and", "iter", "into_iter", "map_or"}
-PANICKY = {"unwrap", "expect", "unwrap_unchecked", "unwrap_err", "expect_err"}
-
-
-def is_fallible_result(ty):
-    if not ty.startswith("std::result::Result<"):
-        return False
-    err = ty[len("std::result::Result<"):]
-    # error type = text after the last top-level comma
-    depth = 0
-    cut = None
-    for i, ch in enumerate(err):
-        if ch in "<([":
-            depth += 1
-        elif ch in ">)]":
-            depth -= 1
-        elif ch == "," and depth == 0:
-            cut = i
-    et = err[cut + 1:].strip() if cut is not None else err
-    if any(x in et for x in ("TryFromSliceError", "TryFromIntError", "LayoutError", "std::fmt::Error")):
-        return False
-    if et.rstrip(">").strip() in ("std::convert::Infallible", "usize", "u64", "u32", "()"):
-        return False
-    return True
-
-
-def result_uses(F, b):
-    """for every call returning a fallible Result: how the result is consumed.
-    yields dict(site, callee, verdict, detail)"""
-    out = []
-    for s, c, t in b.calls():
-        dest = t["dest"]
-        if not is_fallible_result(dest["ty"]):
-            continue
-        n = callee_name(c)
-        last = n.rsplit("::", 1)[-1]
-        if last in ("branch", "from_residual"):
-            continue
-        if b.span_at(s).get("macros") and any(m in ("write", "writeln", "format_args", "debug_struct") or "derive" in m for m in b.span_at(s)["macros"]):
-            continue
-        if dest["p"]:
-            out.append(dict(site=s, callee=n, verdict="stored", detail="result stored into a place"))
-            continue
-        l = dest["l"]
-        if l == 0:
-            out.append(dict(site=s, callee=n, verdict="propagated", detail="returned"))
-            continue
-        uses = _uses_of(b, l, s)
-        verdicts = []
-        for kind, us, info in uses:
-            if kind == "call-arg":
-                un = callee_name(info["callee"])
-                ul = un.rsplit("::", 1)[-1]
-                if ul in FORWARD or ul == "Some" or un.endswith("::Ok"):
-                    verdicts.append(("propagated", f"forwarded to {ul}"))
-                elif ul in PANICKY:
-                    verdicts.append(("unwrap", f"{ul}() on a component result"))
-                elif ul in DISCARD:
-                    verdicts.append(("discarded", f"{ul}() discards the error"))
-                elif info["argi"] > 0 or info["callee"] is None:
-                    verdicts.append(("propagated", f"passed on to {ul}"))
-                else:
-                    verdicts.append(("unrecognised", f"consumed by {un}"))
-            elif kind == "return":
-                verdicts.append(("propagated", "returned"))
-            elif kind == "discr":
-                verdicts.append(_match_verdict(b, us, l))
-            elif kind == "moved":
-                verdicts.append(("propagated", "moved into a value that is returned/forwarded") if info else ("unrecognised", "moved"))
-        if any(v[0] != "no-switch" for v in verdicts):
-            verdicts = [v for v in verdicts if v[0] != "no-switch"]
-        else:
-            verdicts = [("unrecognised", v[1]) for v in verdicts]
-        if not verdicts:
-            out.append(dict(site=s, callee=n, verdict="dropped", detail="the Result is never looked at (let _ = .. / statement expression)"))
-            continue
-        worst = sorted(verdicts, key=lambda v: ["unwrap", "err-arm-panics", "dropped", "discarded", "err-arm-swallowed", "unrecognised", "stored", "propagated"].index(v[0]))[0]
-        out.append(dict(site=s, callee=n, verdict=worst[0], detail=worst[1]))
-    return out
-
-
-def _uses_of(b, l, def_site):
-    uses = []
-    for s, st in b.sites():
-        if s.i is not None:
-            if st["s"] != "assign":
-                continue
-            rv = st["rv"]
-            if rv["rv"] == "discr" and rv["pl"]["l"] == l and not [p for p in rv["pl"]["p"] if p != "*"]:
-                uses.append(("discr", s, None))
-            elif rv["rv"] == "use" and rv["op"]["k"] in ("copy", "move") and rv["op"]["pl"]["l"] == l and not rv["op"]["pl"]["p"]:
-                if not st["pl"]["p"] and st["pl"]["l"] == 0:
-                    uses.append(("return", s, None))
-                elif not st["pl"]["p"]:
-                    # copy into another local: follow
-                    uses += _uses_of(b, st["pl"]["l"], s)
-                else:
-                    uses.append(("moved", s, False))
-            elif rv["rv"] in ("ref",) and rv["pl"]["l"] == l and not rv["pl"]["p"]:
-                if not st["pl"]["p"]:
-                    uses += _uses_of(b, st["pl"]["l"], s)
-            elif rv["rv"] == "agg":
-                for o in rv["ops"]:
-                    if o["k"] in ("copy", "move") and o["pl"]["l"] == l and not o["pl"]["p"]:
-                        uses.append(("moved", s, True))
-        else:
-            if st["t"] == "call":
-                for i, a in enumerate(st["args"]):
-                    if a["k"] in ("copy", "move") and a["pl"]["l"] == l and not a["pl"]["p"]:
-                        uses.append(("call-arg", s, {"callee": callee_of(st), "argi": i}))
-    return uses
-
-
-def _match_verdict(b, dsite, l):
-    """the Result is matched: the Err arm must reach a return that carries an Err"""
-    dl = b.at(dsite)["pl"]["l"]
-    for bb in sorted(b.normal_blocks()):
-        t = b.term(bb)
-        if t["t"] == "switch" and t["discr"]["k"] in ("copy", "move") and t["discr"]["pl"]["l"] == dl and b.dominates(dsite, Site(bb, None)):
-            arms = {int(v): tb for v, tb in t["arms"]}
-            err_t = arms.get(1, t["otherwise"] if 1 not in arms else None)
-            ok_t = arms.get(0, t["otherwise"] if 0 not in arms else None)
-            if err_t is None or err_t == ok_t:
-                return ("err-arm-swallowed", "Ok and Err take the same path")
-            if diverges(b, err_t):
-                return ("err-arm-panics", "the Err arm cannot return (it panics)")
-            # does the Err arm's region assign an Err to _0 / call from_residual before returning?
-            reg = {err_t} | {x for x in b.reachable_from(err_t) if b.dominates(err_t, x)}
-            for s, k, p in b.defs()[0].get(0, []):
-                if s.bb in reg:
-                    if k == "call" and call_matches(callee_of(p), "::from_residual"):
-                        return ("propagated", "match: Err arm returns the error")
-                    if k == "assign":
-                        e = b._expr_of_def((s, k, p))
-                        if e.k == "agg" and e.x.get("variant") == "Err":
-                            return ("propagated", "match: Err arm returns Err(..)")
-            return ("err-arm-swallowed", "the Err arm continues without returning an error (`if let Ok(..)` / `match .. { Err(_) => {} }`)")
-    return ("no-switch", "discriminant read but no switch found")
+from .errflow import *  # noqa
+from .errflow import result_uses, is_fallible_result, PANICKY
 
 
 def run(ck):
